@@ -194,6 +194,12 @@ func runHTTP(m map[string]string) string {
 		g.Target = sharedTLS(true)
 	case "tls1":
 		g.Target = sharedTLS(false)
+	case "r3":
+		g.Target = r3SharedRaw()
+	case "r3tls2":
+		g.Target = r3SharedTLS(true)
+	case "r3tls1":
+		g.Target = r3SharedTLS(false)
 	default:
 		g.Target = sharedTarget()
 	}
@@ -244,6 +250,7 @@ func scnPP(pp string) []string {
 
 func runScn(m map[string]string) string {
 	var steps []shot.ScnStep
+	var names []string
 	for _, r := range strings.Split(m["steps"], ";") {
 		f := strings.Split(r, ",")
 		if len(f) < 5 {
@@ -254,16 +261,44 @@ func runScn(m map[string]string) string {
 			uri += "{{" // unparsable template: templater.Apply fails before anything is sent
 		}
 		steps = append(steps, shot.ScnStep{Name: f[0], URI: uri, Script: f[2], PP: scnPP(f[4])})
+		names = append(names, f[0])
+	}
+	// hits=1 / cxl=<i>: the target records which steps it saw and tells when it has answered step i (round3.go)
+	noted := m["hits"] == "1" || m["cxl"] != ""
+	var tok string
+	var note *r3Note
+	o := optsOf(m)
+	if noted {
+		tok, note, o = r3CancelPlan(m, names)
+		defer r3Notes.Delete(tok)
+		for i := range steps {
+			sep := "?"
+			if strings.Contains(steps[i].URI, "?") {
+				sep = "&"
+			}
+			steps[i].URI += sep + "nt=" + tok + "." + steps[i].Name
+		}
 	}
 	g := shot.HTTPGunConf{Target: sharedTarget()}
-	if m["gun"] == "http2/scenario" {
+	switch {
+	case m["tgt"] == "r3tls2":
+		g.Target = r3SharedTLS(true)
+	case m["tgt"] == "r3":
+		g.Target = r3SharedRaw()
+	case m["gun"] == "http2/scenario":
 		g.Target = sharedTLS(true)
 	}
 	conf := shot.ScenarioPool(g, m["scn"], steps, atoi(m["n"], 1), 1)
+	if m["slp"] != "" {
+		r3RewriteRequests(conf, names, r3ParsePauses(m["slp"]))
+	}
 	if m["gun"] == "http2/scenario" {
 		conf = strings.Replace(conf, `gun: {type: "http/scenario"`, `gun: {type: "http2/scenario"`, 1)
 	}
-	res := runEngineOpt(spliceGunOpts(conf, m), optsOf(m), 40*time.Second)
+	res := runEngineOpt(spliceGunOpts(conf, m), o, 40*time.Second)
+	if noted {
+		return fmtSamples(res, false) + " hits=" + note.hitList(names)
+	}
 	return fmtSamples(res, false)
 }
 
@@ -327,17 +362,37 @@ func runGrpc(m map[string]string) string {
 
 func runGrpcScn(m map[string]string) string {
 	var calls []shot.GrpcCall
+	var names []string
+	noted := m["hits"] == "1" || m["cxl"] != ""
 	for _, r := range strings.Split(m["calls"], ";") {
 		f := strings.Split(r, ",")
 		if len(f) < 5 {
 			panic("bad grpc call " + r)
 		}
+		names = append(names, f[0])
+	}
+	var tok string
+	var note *r3Note
+	o := optsOf(m)
+	if noted {
+		tok, note, o = r3CancelPlan(m, names)
+		defer r3Notes.Delete(tok)
+	}
+	for _, r := range strings.Split(m["calls"], ";") {
+		f := strings.Split(r, ",")
 		kind := f[2]
 		if kind == "tpl" {
 			kind = "ok"
 		}
 		q := grpcReqOf(f[1], kind, f[3])
 		c := shot.GrpcCall{Name: f[0], Tag: f[1], Call: q.Call, Metadata: q.Metadata, Payload: `{"name": "verif"}`}
+		if noted {
+			md := map[string]string{"x-nt": tok + "." + f[0]}
+			for k, v := range c.Metadata {
+				md[k] = v
+			}
+			c.Metadata = md
+		}
 		if f[2] == "badpayload" {
 			c.Payload = `{"no_such_field": 1}`
 		}
@@ -349,9 +404,22 @@ func runGrpcScn(m map[string]string) string {
 		}
 		calls = append(calls, c)
 	}
-	addr, stop := grpcTargetFor(m["calls"])
+	var addr string
+	var stop func()
+	if noted {
+		addr, stop = r3GrpcTargetRetry()
+	} else {
+		addr, stop = grpcTargetFor(m["calls"])
+	}
 	defer stop()
-	res := runEngineOpt(spliceGrpcOpts(shot.GrpcScenarioPool(addr, atoi(m["to"], 0), m["scn"], calls, atoi(m["n"], 1), 1), m), optsOf(m), 40*time.Second)
+	conf := shot.GrpcScenarioPool(addr, atoi(m["to"], 0), m["scn"], calls, atoi(m["n"], 1), 1)
+	if m["slp"] != "" {
+		r3RewriteRequests(conf, names, r3ParsePauses(m["slp"]))
+	}
+	res := runEngineOpt(spliceGrpcOpts(conf, m), o, 40*time.Second)
+	if noted {
+		return fmtSamples(res, false) + " hits=" + note.hitList(names)
+	}
 	return fmtSamples(res, false)
 }
 
@@ -1289,6 +1357,8 @@ func gen(r *rand.Rand, tier string) []string {
 	for _, tag := range []string{"", "t", "a|b"} {
 		out = append(out, fmt.Sprintf("k=inv tag=%s id=%d auto=%d", hx(tag), 1+r.Intn(100), r.Intn(2)))
 	}
+	// 12. third round: redirects, pauses, cancellation during a pause (round3.go)
+	out = append(out, genRound3(r, thorough)...)
 	return out
 }
 
@@ -1323,6 +1393,9 @@ func class(input, obs string) string {
 		if m["redir"] == "1" {
 			c += ":redirecting"
 		}
+		if strings.Contains(input, ",c:") {
+			c += ":redirect-chains"
+		}
 		if m["inst"] != "" {
 			c += ":multi"
 		}
@@ -1347,6 +1420,17 @@ func class(input, obs string) string {
 		}
 		if strings.Contains(input, ",gone,") {
 			c += ":target-gone"
+		}
+		if strings.Contains(input, ",c:") {
+			c += ":redirect-chains"
+			if m["redir"] == "1" {
+				c += ":following"
+			}
+		}
+		if m["cxl"] != "" {
+			c += ":cancel-in-pause"
+		} else if m["slp"] != "" {
+			c += ":pauses"
 		}
 		if m["alog"] != "" || m["trace"] != "" || m["dump"] != "" || m["dbg"] != "" || m["shc"] != "" {
 			c += ":opts"
